@@ -223,7 +223,43 @@ def build_object(op, reg):
             vals = complex(vals[0], vals[1])
     if kind == "quantity":
         return unyt.unyt_quantity(np.array(vals, dtype=op["dtype"])[()], op["unit"], registry=reg, name=op.get("name"))
-    return unyt.unyt_array(np.array(vals, dtype=op["dtype"]), op["unit"], registry=reg, name=op.get("name"))
+    return unyt.unyt_array(lay_out(np.array(vals, dtype=op["dtype"]), op.get("layout")), op["unit"], registry=reg,
+                           name=op.get("name"))
+
+
+LAYOUTS = ["col", "2d", "2dF", "T", "strided", "rev", "0d", "empty", "readonly", "view_of_big"]
+
+
+def lay_out(base, layout):
+    """Less ordinary memory layouts of the same numbers: what is persisted is the logical array, whatever its strides,
+    order, writability or the size of the buffer it is a window on."""
+    if not layout:
+        return base
+    two = np.stack([base, base[::-1]])
+    if layout == "col":
+        return base.reshape(-1, 1)
+    if layout == "2d":
+        return two
+    if layout == "2dF":
+        return np.asfortranarray(two)
+    if layout == "T":
+        return two.T
+    if layout == "strided":
+        return np.repeat(base, 2)[::2]
+    if layout == "rev":
+        return base[::-1]
+    if layout == "0d":
+        return base[:1].reshape(())
+    if layout == "empty":
+        return base[:0]
+    if layout == "readonly":
+        b = base.copy()
+        b.flags.writeable = False
+        return b
+    if layout == "view_of_big":
+        big = np.concatenate([base, base, base])
+        return big[len(base):2 * len(base)]
+    raise HarnessError(layout)
 
 
 # -------------------------------------------------------------- roundtrip
@@ -554,6 +590,8 @@ def gen_run(r, cfg):
     build = {"k": "build", "kind": kind, "dtype": dtype, "unit": unit, "dim": dim, "guard": guard,
              "v": gen_values(r, dtype, n, guard) if kind == "array" else gen_values(r, dtype, 1, guard)[0],
              "name": r.choice([None, "field"]), "prehash": r.random() < 0.3}
+    if kind == "array" and route != "savetxt" and r.random() < 0.3:
+        build["layout"] = r.choice(LAYOUTS)
     if route == "savetxt":
         build["kind"] = "array"
         build["v"] = gen_values(r, dtype, n, guard)
@@ -801,6 +839,8 @@ class Sim11:
             self.log.add({"build_refused": type(e).__name__})
             return
         self.count("build:" + build["kind"])
+        if build.get("layout"):
+            self.count("layout:" + build["layout"])
         if build.get("prehash"):
             # the unit is hashed (as any memoised unit rule does) BEFORE the registry is edited further
             hash(obj if isinstance(obj, uo.Unit) else obj.units)
